@@ -4,7 +4,10 @@
      run     = ( backend engine mode limit errclass ( objid ... ) )
      stream  = ( backend engine errclass ( ( objid status ) ... ) )
    backend 0 memory 1 sqlite; engine 0 classic 1 weighted 2 pipeline; mode 0 Execute 1 streamed;
-   errclass 0 none 1 condition 2 too-complex 3 validation 4 other 5 deadline/slow.
+   errclass 0 none 1 condition 2 too-complex 3 validation 4 other 5 deadline/slow 6 hang (no response:
+   nothing to compare; the property speaks about responses).
+   The pipeline engine serves plain-object subjects only; for wildcard and userset subjects the
+   code falls back to the classic reverse expansion (effective engine).
 
    Per request the reference semantics gives  permitted = { o of the type | Sem.holds3 o rel = T }.
    PROP  (the property's own predicate fails on the implementation's output):
@@ -207,13 +210,14 @@ let f _id vs =
             match as_list runv with
             | [bv; ev; modev; limv; ecv; ovs] ->
               let b = as_int bv and e = as_int ev and mode = as_int modev and limit = as_int limv and ec = as_int ecv in
+              let e = if e = 2 && (match subj with SObj _ -> false | _ -> true) then 0 else e in
               let objs = List.map as_int (as_list ovs) in
               let w = Printf.sprintf "%s %s limit=%d" (where b e) (if mode = 1 then "streamed" else "unary") limit in
               let bad = ref false in
               let flag_prop txt = props := txt :: !props; bad := true in
               if not subj_valid then begin
                 if ec <> 3 then flag_prop (w ^ ": invalid subject accepted")
-              end else if ec = 5 then ()
+              end else if ec = 5 || ec = 6 then ()
               else begin
                 (match ec with
                  | 1 -> if not has_e then flag_prop (w ^ ": condition error although every condition can be evaluated")
